@@ -215,7 +215,13 @@ def tlc(specdir, module, cfg, sdir, workers=None, simulate=None, depth=None, see
             open(dst, "w").write(val)
     meta = os.path.join(work, "meta")
     cmd = ["timeout", str(int(timeout)), "tlc", "-metadir", meta, "-config", cfg, "-noGenerateSpecTE"]
-    cmd += ["-workers", str(workers or min(NCPU, 16))]
+    w = workers or min(NCPU, 16)
+    if w > 2:   # be a good neighbour when the machine is already saturated (results do not depend on the worker count)
+        try:
+            w = max(2, min(w, int(NCPU * 1.5 - os.getloadavg()[0])))
+        except OSError:
+            pass
+    cmd += ["-workers", str(w)]
     if simulate:
         cmd += ["-simulate", simulate]
     if depth:
@@ -268,6 +274,8 @@ def tlc(specdir, module, cfg, sdir, workers=None, simulate=None, depth=None, see
     if re.search(r"^Error: ", out, re.M) and not r.violated:
         em = re.search(r"^Error: (.*(?:\n.*){0,12})", out, re.M)
         r.error = em.group(1) if em else "error"
+    if p.returncode != 0 and not r.violated and not r.error:
+        r.error = "tlc exited with status %d without a parsable result: %s" % (p.returncode, out[-800:])
     if coverage:
         for cm in re.finditer(r"^<(\w+) line \d+, col \d+ to line \d+, col \d+ of module (\w+)>: (\d+):(\d+)", out, re.M):
             r.coverage[cm.group(1)] = r.coverage.get(cm.group(1), 0) + int(cm.group(4))
